@@ -47,9 +47,9 @@ def gaps_for(reset, ctx):
     g = {0, E, 2 * E, 125_000}
     for x in (reset, ctx):
         if x:
-            g |= {x - E, x, x + E, x // 2, 3 * x}
+            g |= {x - E, x, x + E, x // 2, 3 * x, x + x // 2}
     if reset and ctx:
-        g |= {abs(reset - ctx), reset + ctx}
+        g |= {abs(reset - ctx), reset + ctx, reset + ctx // 2, reset + ctx - E}
     return sorted(v for v in g if v >= 0 and v % E == 0)
 
 
@@ -291,38 +291,25 @@ def _oracle_reset(evs, on_inputs, R, kind, C, end):
 
 
 def _oracle_counter(case, evs, R, C, end):
-    cbs = [e for e in evs if e[0] == "cb"]
-    # callbacks of the context task come in pairs at one instant: (state, n) and (state, 0)
-    writes_only = all(e[0] != "tr" for e in evs)
-    if not writes_only:
-        # weak form: every sample after a write telegram counts at least that telegram
+    """Reference for the counter clause, computed from the telegram history alone.
+
+    Counted events = the write telegrams and (if a reset time is configured too) each timed reset as an 'off' event.
+    The counter shown for state v after an event = number of v-events in the current burst (maximal run of most recent
+    events whose successive gaps are < C); the window closes C after the last event: two callbacks, counters back to 0.
+    """
+    if any(e[0] == "tr" for e in evs):
+        # weak form for histories with responses: a sample right after a write telegram counts at least that telegram
         for i, e in enumerate(evs):
             if e[0] == "tw":
                 qs = [x for x in evs[i + 1:] if x[0] == "q"]
-                if qs and qs[0][3] == ev_time(e) and qs[0][2] < 1:
+                if qs and qs[0][3] == ev_time(e) and qs[0][2] < 1 and not (R == 0 and e[1] == 1):
                     return f"counter {qs[0][2]} right after a telegram at t={ev_time(e)}"
         return None
-    # counted events: every write telegram, and (reset_after configured as well) the timed reset as an 'off' event
-    tels = [(e[2], e[1]) for e in evs if e[0] == "tw"]
-    events = []
-    if R is None:
-        events = list(tels)
-    else:
-        for i, (t, v) in enumerate(tels):
-            events.append((t, v))
-            if v == 1:
-                later_on = [t2 for t2, v2 in tels[i + 1:] if v2 == 1]
-                if (not later_on or later_on[0] >= t + R) and t + R <= end:
-                    events.append((t + R, 0))
-        # stable sort: a reset due at the time of a later telegram precedes it (timer-first); a telegram precedes its own reset (R == 0)
-        events.sort(key=lambda x: x[0])
-    if R is not None and any(b[0] - a[0] == C for a, b in zip(events, events[1:])) :
-        return None   # reset timer and context timer due at the same instant: their order is not fixed by the property
-    # reference counter: same-state events of the current burst (successive gaps < C)
-    def count_at(k):
-        n = 0
-        v = events[k][1]
-        j = k
+    events = []          # counted events (time, state, is_reset)
+    pending_reset = None
+
+    def count_last():
+        n, v, j = 0, events[-1][1], len(events) - 1
         while True:
             if events[j][1] == v:
                 n += 1
@@ -330,28 +317,48 @@ def _oracle_counter(case, evs, R, C, end):
                 break
             j -= 1
         return n
-    # samples right after a telegram must show its counter
-    if R is None:
-        for k, (t, v) in enumerate(events):
-            # the q sample recorded right after the k-th telegram
-            idx = [i for i, e in enumerate(evs) if e[0] == "tw"][k]
-            qs = [x for x in evs[idx + 1:] if x[0] == "q"]
-            if not qs or qs[0][3] != t:
-                continue
-            # if the context window of this very telegram is 0 wide it may already have closed
-            if qs[0][1] != v:
-                return f"state {qs[0][1]} right after telegram {v} at t={t}"
-            if qs[0][2] != count_at(k):
-                return (f"counter {qs[0][2]} after telegram #{k} (state {v}, t={t}); {count_at(k)} same-state telegrams arrived "
-                        f"within {C} us of each other")
-    # bursts close C after their last event: exactly two callbacks there (counter value, then reset)
+
+    def fire_resets(t):
+        nonlocal pending_reset
+        if pending_reset is not None and pending_reset <= t:
+            events.append((pending_reset, 0, True))
+            pending_reset = None
+
+    for e in evs:
+        k, t = e[0], ev_time(e)
+        fire_resets(t)
+        if k == "tw":
+            events.append((t, e[1], False))
+            if R is not None and e[1] == 1:
+                pending_reset = t + R
+        elif k == "q" and events:
+            lt, lv, _ = events[-1]
+            want_state = lv
+            want = count_last() if t < lt + C else 0
+            if e[1] != want_state:
+                return f"state {e[1]} sampled at t={t}; last counted event was {lv} at t={lt}"
+            if e[2] != want:
+                return (f"counter {e[2]} sampled at t={t} for state {lv}: {want} same-state telegrams arrived within {C} us of "
+                        f"each other (counted events: {[(x[0], x[1]) for x in events[-6:]]})")
+    fire_resets(end)
+    # bursts close C after their last event: exactly two callbacks there (counter value, then 0) -- unless the reset timer and
+    # the context timer are due at the same instant, whose order the property does not fix
+    if any(b[2] and b[0] - a[0] == C for a, b in zip(events, events[1:])):
+        return None
     want = []
-    for k, (t, v) in enumerate(events):
+    for k, (t, v, _) in enumerate(events):
         nxt = events[k + 1][0] if k + 1 < len(events) else None
         if (nxt is None or nxt >= t + C) and t + C <= end:
-            want.append((t + C, v, count_at(k)))
+            n, j = 0, k
+            while True:
+                if events[j][1] == v:
+                    n += 1
+                if j == 0 or events[j][0] - events[j - 1][0] >= C:
+                    break
+                j -= 1
+            want.append((t + C, v, n))
             want.append((t + C, v, 0))
-    got = sorted((e[3], e[1], e[2]) for e in cbs)
+    got = sorted((e[3], e[1], e[2]) for e in evs if e[0] == "cb")
     if got != sorted(want):
         return f"context callbacks (time, state, counter) {got}; one pair per burst wanted: {sorted(want)}"
     return None
